@@ -726,3 +726,47 @@ pub fn main_for(property: &str, body: impl FnOnce(&Run, Option<&Value>)) -> ! {
     let code = run.finish();
     std::process::exit(code);
 }
+
+// ---------------------------------------------------------------------------
+// repository + corpus access
+// ---------------------------------------------------------------------------
+
+/// Root of the repository under test (`/repo`, or `$VERIF_REPO` when a scratch worktree is checked).
+pub fn repo_root() -> PathBuf {
+    std::env::var("VERIF_REPO")
+        .map(PathBuf::from)
+        .unwrap_or_else(|_| PathBuf::from("/repo"))
+}
+
+/// The frozen in-repo corpus: (path relative to the repo root, bytes), sorted by path.
+/// `font-test-data/test_data/ttf/*.{ttf,otf}`, `font-test-data/test_data/ttc/*.ttc`,
+/// `klippa/test-data/fonts/*.{ttf,otf}`.
+pub fn corpus_fonts() -> Vec<(String, Vec<u8>)> {
+    let root = repo_root();
+    let mut out = vec![];
+    for dir in [
+        "font-test-data/test_data/ttf",
+        "font-test-data/test_data/ttc",
+        "klippa/test-data/fonts",
+    ] {
+        let Ok(rd) = std::fs::read_dir(root.join(dir)) else {
+            continue;
+        };
+        for e in rd.flatten() {
+            let p = e.path();
+            let ext = p
+                .extension()
+                .and_then(|e| e.to_str())
+                .unwrap_or("")
+                .to_ascii_lowercase();
+            if matches!(ext.as_str(), "ttf" | "otf" | "ttc") {
+                if let Ok(b) = std::fs::read(&p) {
+                    let rel = format!("{}/{}", dir, p.file_name().unwrap().to_string_lossy());
+                    out.push((rel, b));
+                }
+            }
+        }
+    }
+    out.sort_by(|a, b| a.0.cmp(&b.0));
+    out
+}
